@@ -107,6 +107,7 @@ def check_reporter_walk(chk, ix):
     rc = ix.cls("behave.reporter.summary:SummaryReporterV1")
     stubs = {"@with": "transparent", "AbstractSummaryReporter.__init__": lambda it, s, a, k, n: [(s, "val", None)]}
     it = Interp(ix, stubs=stubs, attr_stubs=_attr_stubs(), name="SummaryReporterV1")
+    it.list_cap = 64        # the count tables are built from lists of status names
     st = State()
     st.frames = []
     rep = st.alloc(HObj(rc, {"_failed_scenarios": st.alloc(HObj("list", kind="list", items=[])),
